@@ -36,7 +36,8 @@ def expand_a(job, P, ob, where, entry, rho_ok):
     """ExpandA (Alg. 32): k*l SHAKE128 instances in row-major order; instance (r, s) absorbs
     rho(32) | IntegerToBytes(s, 1) | IntegerToBytes(r, 1); coefficients come from 3-byte reads."""
     k, l = P["k"], P["l"]
-    xs = dedup(sites_under(job, "%s>expand_a>rej_ntt_poly>g128_xof" % where, "Shake128"))
+    suffix = "expand_a>rej_ntt_poly>g128_xof" if where is None else "%s>expand_a>rej_ntt_poly>g128_xof" % where
+    xs = dedup(sites_under(job, suffix, "Shake128"))
     ok = len(xs) == k * l
     bad = None
     srcs = set()
@@ -194,4 +195,46 @@ def byte_fields(struct_fields):
     for nm, nd in (struct_fields or {}).items():
         if isinstance(nd, dict) and "arr_len" in nd and isinstance(nd.get("elems"), dict) and nd["elems"].get("int") == [0, 255]:
             out[nm] = (nd["arr_len"], nd.get("tag"))
+    return out
+
+
+def read_tag(site_id, length, off=0):
+    return "xof%s@%d+%d" % (site_id, off, length)
+
+
+def flows_from(item, job, site, length):
+    """the absorbed item is exactly the `length` bytes read at offset 0 from hash instance `site`:
+    decided by the exact-copy provenance tag; falls back to 'same buffer name' when the tag was lost at a join"""
+    tag = item.get("tag")
+    if tag is not None and tag.startswith("xof"):
+        # a probe replayed from a memoised call made in an earlier job carries that job's instance ids
+        ids = job.setdefault("_xof_ids", {x["id"] for x in absorb.sites(job, "xof")})
+        if tag[3:].split("@")[0] not in ids:
+            tag = None
+    if tag is not None:
+        return tag == read_tag(site["id"], length)
+    rd = absorb.reads(job, site["id"])
+    return len(rd) >= 1 and rd[0]["dest"] == item["src"]
+
+
+def hash_roles(job, key_tag):
+    """Bind the FIPS roles of the SHAKE256 instances of a signing / verification run by DATAFLOW (what each
+    instance absorbs and where its output goes), independent of call paths and local variable names.
+    key_tag: 'sk.tr' or 'pk.tr'.  Returns dict with lists: mu, rho2, commit and the FIPS-named helpers' sites."""
+    xs = dedup(absorb.sites(job, "xof"))
+    sh = [x for x in xs if x["kind"] == "Shake256" and x["items"]]
+    mu = [x for x in sh if x["items"][0]["len"] == [64, 64] and (x["items"][0].get("tag") == key_tag) and len(x["items"]) >= 2]
+    out = {"mu": mu, "rho2": [], "commit": [], "expand_mask": [x for x in sh if ">expand_mask>" in x["path"] or x["path"].endswith(">expand_mask")],
+           "sample_in_ball": [x for x in sh if ">sample_in_ball>" in x["path"]]}
+    if len(mu) != 1:
+        return out
+    m = mu[0]
+    for x in sh:
+        it = x["items"]
+        if x is m or x in out["expand_mask"] or x in out["sample_in_ball"]:
+            continue
+        if len(it) == 3 and [i["len"] for i in it] == [[32, 32], [32, 32], [64, 64]] and flows_from(it[2], job, m, 64):
+            out["rho2"].append(x)
+        elif len(it) == 2 and it[0]["len"] == [64, 64] and flows_from(it[0], job, m, 64):
+            out["commit"].append(x)
     return out
